@@ -342,6 +342,12 @@ fn worker_inner(check: &dyn Check, cap: &Capture, tier: Tier, seed: u64, k: u64,
         let first_hash = report.log_hash;
         let discarded = report.discarded.is_some();
         acc.absorb(check, &scenario, index as i64, report);
+        if crate::world_a::poisoned() {
+            // A run thread is still spinning inside lace: stop here, report what we have
+            timed_out = true;
+            index += n;
+            break;
+        }
         // Determinism re-check on a 1-in-64 sample: regenerate and re-execute
         if index % 64 == 5 && !discarded {
             let again = check.generate(seed, index);
@@ -394,6 +400,9 @@ pub struct BatchResult {
 
 /// Quiet re-execution used by the minimiser: does `scenario` still show `key`?
 fn still_fails(check: &dyn Check, cap: &Capture, scenario: &J, key: &str) -> Option<String> {
+    if crate::world_a::poisoned() {
+        return None;
+    }
     let report = check.execute(cap, scenario);
     if report.discarded.is_some() {
         return None;
@@ -638,6 +647,19 @@ pub fn run_check(check: &dyn Check, tier: Tier) -> i32 {
         let (detail, scenario, index) = witnesses.remove(0);
         if unlisted > 12 {
             lines.push(format!("note: further violation class not minimised: {} ({})", key, detail));
+            continue;
+        }
+        if key.contains("/hang") {
+            // Re-executing an endless loop would only poison this process too: report as found
+            let path = write_replay(check, &key, &detail, &scenario, seed, index);
+            lines.push(format!(
+                "VIOLATION property={} replay={} key={} occurrences={} minimise_steps=0 :: {}",
+                check.id(),
+                path.display(),
+                key,
+                found_per_key.get(&key).copied().unwrap_or(1),
+                first_line(&detail)
+            ));
             continue;
         }
         let (small, small_detail, spent) = minimise(check, &cap, &scenario, &key, 1500);
